@@ -108,6 +108,14 @@ func (a *Allocation) AddPermission(perms *Permission) {
 	// while the OnPermissionCreated callback below is still running.
 	perms.allocation = a
 	a.permissionsLock.Lock()
+	// An allocation that has ended takes nothing new: the request was looked
+	// up before (a user callback may have taken its time since), and Close,
+	// which removes what is listed, has run or is running.
+	if a.isClosed() {
+		a.permissionsLock.Unlock()
+
+		return
+	}
 	a.permissions[fingerprint] = perms
 	perms.start(perms.timeout)
 	a.permissionsLock.Unlock()
@@ -177,6 +185,10 @@ func (a *Allocation) AddChannelBind(chanBind *ChannelBind, channelLifetime, perm
 	if channelByNumber == nil {
 		a.channelBindingsLock.Lock()
 		defer a.channelBindingsLock.Unlock()
+
+		if a.isClosed() {
+			return ErrAllocationClosed
+		}
 
 		chanBind.allocation = a
 		a.channelBindings = append(a.channelBindings, chanBind)
@@ -313,6 +325,15 @@ func (a *Allocation) RemoveTCPConnection(m *Manager, connectionID proto.Connecti
 	defer m.lock.Unlock()
 
 	a.removeTCPConnection(connectionID)
+}
+
+func (a *Allocation) isClosed() bool {
+	select {
+	case <-a.closed:
+		return true
+	default:
+		return false
+	}
 }
 
 // Close closes the allocation.
